@@ -26,6 +26,8 @@ def scenario_interp(ctx):
     it = Interp(ctx, overrides={("feature", "dict_class"): TypeVal("dict")})
     it.summaries["helpers._unjsonify"] = lambda i, pos, kw, node: json_loads(i, pos[:1], {}, node)
     it.construct_real |= {"feature.Feature", "*"}      # scenario mode: package classes are constructed for real (helper objects of a refactoring)
+    it.lazy_generators = True                            # generators interleave with their consumers as in Python
+    it.keep_generators = True
     return it
 
 
